@@ -252,9 +252,10 @@ def run_arg_case(op, twice):
         return json.dumps([a.serialize() if hasattr(a, "serialize") else a for a in args], sort_keys=True, default=str)
     snap = dump()
     outcomes = []
+    results = []
     for _ in range(2 if twice else 1):
         try:
-            fn()
+            results.append(fn())
             outcomes.append("ok")
         except (STIXError, ValueError, TypeError) as e:
             outcomes.append(type(e).__name__)
@@ -266,6 +267,11 @@ def run_arg_case(op, twice):
             except STIXError:
                 outcomes.append("reuse-refused")
         if dump() != snap:
+            return False
+    if op == 8 and len(results) == 2:
+        # a factory's defaults are the factory's: the second object is built from the same defaults as the first
+        strip = lambda o: {k: v for k, v in json.loads(o.serialize()).items() if k not in ("id", "created", "modified")}   # noqa: E731
+        if strip(results[0]) != strip(results[1]) or len(results[0]["external_references"]) != 2:
             return False
     if op == 3 and "reuse-accepted" in outcomes:
         return False
